@@ -112,9 +112,12 @@ impl<'arena> Diagnostics<'arena> {
     #[must_use]
     pub fn render_ansi(&self, src: &str, filename: &str) -> ArenaString<'arena> {
         let mut buf = ArenaString::new_in(self.arena);
-        let gutter_width = self.compute_gutter_width(&self.diagnostics, src);
+        // The line table is built once: the arena gives nothing back, so a table per
+        // diagnostic would cost source size times number of diagnostics.
+        let line_starts = self.compute_line_starts(src);
+        let gutter_width = self.compute_gutter_width(&self.diagnostics, src, &line_starts);
         for diag in &self.diagnostics {
-            self.render_diagnostic(diag, src, filename, gutter_width, Some(&mut buf));
+            self.render_diagnostic(diag, src, &line_starts, filename, gutter_width, Some(&mut buf));
         }
         buf
     }
@@ -123,12 +126,13 @@ impl<'arena> Diagnostics<'arena> {
         &self,
         diag: &Diagnostic,
         src: &str,
+        line_starts: &[usize],
         filename: &str,
         gutter_width: usize,
         mut buf: Option<&mut ArenaString<'arena>>,
     ) {
         let color = diag.severity.color_code();
-        let (line, col, line_start, line_end) = self.line_col_from_span(src, diag.span.start);
+        let (line, col, line_start, line_end) = self.line_col_in(src, line_starts, diag.span.start);
         let header = self.render_header(diag.severity, diag.code, diag.message);
         let location = self.render_location(filename, line, col, color);
         let src_line = self.expand_tabs(&src[line_start..line_end]);
@@ -140,7 +144,7 @@ impl<'arena> Diagnostics<'arena> {
         // Separate same-line labels from cross-line labels
         let (same_line_labels, cross_line_labels): (Vec<_>, Vec<_>) =
             diag.labels.iter().partition(|label| {
-                let (label_line, ..) = self.line_col_from_span(src, label.span.start);
+                let (label_line, ..) = self.line_col_in(src, line_starts, label.span.start);
                 label_line == line
             });
 
@@ -165,7 +169,7 @@ impl<'arena> Diagnostics<'arena> {
         let mut cross_line_displays = Vec::with_capacity_in(cross_line_labels.len(), self.arena);
         for label in cross_line_labels {
             let (label_line, label_col, label_line_start, label_line_end) =
-                self.line_col_from_span(src, label.span.start);
+                self.line_col_in(src, line_starts, label.span.start);
             let label_src_line = self.expand_tabs(&src[label_line_start..label_line_end]);
             let label_gutter = self.render_gutter(label_line, color, gutter_width);
             let line_display = format!("{label_gutter}{label_src_line}");
@@ -289,9 +293,19 @@ impl<'arena> Diagnostics<'arena> {
         label_line
     }
 
-    #[inline]
+    #[cfg(test)]
     fn line_col_from_span(&self, src: &str, start: usize) -> (usize, usize, usize, usize) {
         let line_starts = self.compute_line_starts(src);
+        self.line_col_in(src, &line_starts, start)
+    }
+
+    #[inline]
+    fn line_col_in(
+        &self,
+        src: &str,
+        line_starts: &[usize],
+        start: usize,
+    ) -> (usize, usize, usize, usize) {
         let line_idx = line_starts.binary_search(&start).unwrap_or_else(|x| x - 1);
         let line_start = line_starts[line_idx];
         let line_end = if line_idx + 1 < line_starts.len() {
@@ -306,7 +320,7 @@ impl<'arena> Diagnostics<'arena> {
     fn compute_line_starts(&self, src: &str) -> Vec<usize, &'arena Arena> {
         let haystack = src.as_bytes();
         let len = haystack.len();
-        let mut starts = Vec::with_capacity_in(len, self.arena);
+        let mut starts = Vec::new_in(self.arena);
         starts.push(0);
 
         let mut offset = 0;
@@ -340,13 +354,18 @@ impl<'arena> Diagnostics<'arena> {
 
     // We calculate the widest line number so the gutter always lines up,
     // no matter how many digits the line numbers have.
-    fn compute_gutter_width(&self, diagnostics: &[Diagnostic], src: &str) -> usize {
+    fn compute_gutter_width(
+        &self,
+        diagnostics: &[Diagnostic],
+        src: &str,
+        line_starts: &[usize],
+    ) -> usize {
         let mut max_line = 1;
         for diag in diagnostics {
-            let (line, _, _, _) = self.line_col_from_span(src, diag.span.start);
+            let (line, _, _, _) = self.line_col_in(src, line_starts, diag.span.start);
             max_line = max_line.max(line);
             for label in &diag.labels {
-                let (label_line, _, _, _) = self.line_col_from_span(src, label.span.start);
+                let (label_line, _, _, _) = self.line_col_in(src, line_starts, label.span.start);
                 max_line = max_line.max(label_line);
             }
         }
